@@ -87,7 +87,7 @@ def clause_text(unit, loc):
 
 
 def report_violation(prop, unit, r, o, scratch, tier, others=None):
-    d = os.path.join(core.VERIF, 'replays')
+    d = os.environ.get('CVS_REPLAY_DIR') or os.path.join(core.VERIF, 'replays')
     os.makedirs(d, exist_ok=True)
     path = os.path.join(d, '%s_%s_%s.json' % (prop, r['task'], re.sub(r'[^\w.\-]', '_', o['name'])))
     task = [t for t in unit['tasks'] if t['id'] == r['task']][0]
